@@ -16,6 +16,8 @@ THEOREMS = [
 	'Httoop.Element.element_tables',
 	'Httoop.Element.element_roundtrip',
 	'Httoop.Element.c09_element_witness',
+	'Httoop.Element.list_roundtrip',
+	'Httoop.Element.c09_list_witness',
 ]
 TRUSTED = [
 	'the two splitting regexes are modelled as "split at the separator when an even number of double quotes follows" (pattern texts pinned by C08.header_tables); re.sub(b"\\\\\\\\(?!\\\\\\\\)", b"", s) by dropLoneBackslashes',
@@ -134,6 +136,12 @@ def model_lines(case):
 		return ['el.compose ' + ' '.join(args)] + (['el.parse ' + hx(comp)] if kind == 'generic' else [])
 	if case[0] == 'wire':
 		return ['el.parse ' + hx(case[1]), 'el.split ' + hx(case[1])]
+	if case[0] == 'list' and case[1][0][0] == 'generic':
+		try:
+			texts = [bytes(make(e)) for e in case[1]]
+		except Exception:
+			return None
+		return ['el.list ' + ' '.join(hx(t) for t in texts)]
 	return None
 
 
@@ -161,6 +169,10 @@ def impl_lines(case):
 			a = 'err ' + exc_name(e)
 		parts = HeaderElement.split(case[1])
 		return [a, ' '.join(hx(p) for p in parts) if parts else '()']
+	if case[0] == 'list' and case[1][0][0] == 'generic':
+		texts = [bytes(make(e)) for e in case[1]]
+		parts = HeaderElement.split(HeaderElement.join(texts))
+		return [' '.join(hx(p) for p in parts) if parts else '()']
 
 
 def classify(els):
@@ -257,6 +269,6 @@ def finding_still_fails(k):
 LEVEL_TEXT = ('Theorems for ALL ASCII parameter values without double quote and without two adjacent backslashes (any length, every other separator, inner whitespace): the escaping written by formatparam is undone by the parser\'s re.sub '
 	'(dropLone_escape), a single formatted parameter parses back to its name and value (param_roundtrip_partial), and every formatted parameter carries an even number of double quotes, which is the invariant that keeps ";" and "," '
 	'inside quoted values from splitting (formatParam_quotes_even). The excluded shapes are exhibited on the model by kernel-evaluated witnesses (F20). The whole element is a theorem as well (element_roundtrip): a value with ANY number of such parameters under pairwise '
-	'different canonical keys composes to a text that parses back to the same value and the same parameters in the same order (c09_element_witness: three parameters, one quoted with ";" and "," inside). Lists, extended (RFC 5987) parameters, '
+	'different canonical keys composes to a text that parses back to the same value and the same parameters in the same order (c09_element_witness: three parameters, one quoted with ";" and "," inside), and so is the list clause (list_roundtrip): such elements, free of "," outside quoted values, joined by HeaderElement.join come back from HeaderElement.split one by one and each parses to its element. Extended (RFC 5987) parameters, '
 	'RFC 2231 continuations and the four element classes are tied by correspondence and judged by the compose-parse oracle.')
 LEVEL_NOTE = 'Trusted: Lean kernel; regex readings pinned by pattern text; extract.py/correspondence. Known findings F20 (quotes / double backslashes), F16 (RFC 2047 padding), F1c (escapes below 0x10) delimit the domain.'
